@@ -10,6 +10,7 @@ import (
 	"time"
 
 	"github.com/samber/ro"
+	"verifharness/internal/catalog"
 	"verifharness/internal/driver"
 	"verifharness/internal/quiesce"
 	"verifharness/internal/rec"
@@ -445,6 +446,53 @@ func runValues(c driver.Case) driver.Result {
 	}
 	if end != rec.Complete && rm.Len() != 0 && !(end == rec.Error && rm.TraceString() == "E(src-error)") {
 		return fail("ToMap/result", fmt.Sprintf("ToMap delivered [%s]", rm.TraceString()))
+	}
+	// the sinks are recipes too: one sink observable subscribed twice over a source that plays the
+	// script and then the script shifted by 10 - the second result is the one of a fresh sink over the
+	// shifted script, and what the first subscription delivered has not changed meanwhile
+	if end == rec.Complete {
+		var shifted src.Script
+		for _, n := range sc {
+			if n.K == rec.Next {
+				n.V += 10
+			}
+			shifted = append(shifted, n)
+		}
+		m2 := map[int]int{}
+		var vs2 []int
+		for i, v := range vs {
+			m2[v+10] = i
+			vs2 = append(vs2, v+10)
+		}
+		type sink struct {
+			name string
+			mk   func(o ro.Observable[int]) catalog.Pipeline
+			want [2]string
+		}
+		wm := [2]string{fmt.Sprint(m) + " C", fmt.Sprint(m2) + " C"}
+		sinks := []sink{
+			{"ToSlice", func(o ro.Observable[int]) catalog.Pipeline { return catalog.P(ro.ToSlice[int]()(o)) }, [2]string{wantSlice + " C", fmt.Sprint(append([]int{}, vs2...)) + " C"}},
+			{"ToMapI", func(o ro.Observable[int]) catalog.Pipeline {
+				return catalog.P(ro.ToMapI(func(x int, i int64) (int, int) { return x, int(i) })(o))
+			}, wm},
+			{"ToMapIWithContext", func(o ro.Observable[int]) catalog.Pipeline {
+				return catalog.P(ro.ToMapIWithContext(func(_ context.Context, x int, i int64) (int, int) { return x, int(i) })(o))
+			}, wm},
+		}
+		for _, sk := range sinks {
+			two := src.New("s2", sc, shifted)
+			p := sk.mk(two.Observable())
+			r1, r2 := rec.New(sk.name+"/1"), rec.New(sk.name+"/2")
+			p.Subscribe(context.Background(), r1, false)
+			p.Subscribe(context.Background(), r2, false)
+			if r1.TraceString() != sk.want[0] || r2.TraceString() != sk.want[1] {
+				return fail(sk.name+"/resubscription-result", fmt.Sprintf("one %s observable subscribed twice (source plays [%s] then [%s]): results [%s] and [%s], expected [%s] and [%s]", sk.name, sc, shifted, r1.TraceString(), r2.TraceString(), sk.want[0], sk.want[1]))
+			}
+			if mu := r1.Mutated(); len(mu) > 0 {
+				return fail(sk.name+"/delivered-value-modified-later", fmt.Sprintf("%s: the value delivered to the first subscriber changed when the observable was subscribed again: %s", sk.name, mu[0]))
+			}
+			res.Events += int64(r1.Len() + r2.Len())
+		}
 	}
 	// Collect
 	if end != rec.Next {
